@@ -518,6 +518,84 @@ fn boxed(cx: &mut Cx, radix: u32, nl: usize, bu: &Budget) {
     }
 }
 
+/// The in-place encoder keeps the running quotient as `hi : limbs[..count]`, where a top quotient limb `t` is moved into
+/// `hi` when `t << shift < div_limb` (shift = leading zeros of div_limb = radix^digits_limb). Values that drive the
+/// quotient to the largest admissible `hi` followed by a limb >= 2^(64 - shift) make the next top quotient limb reach
+/// 2^(64 - shift): x = (hi*2^64 + l) * 2^(64 j) * div_limb^k + r. Formatted as boxed values of exactly that many limbs, as
+/// 32- and 40-limb fixed values, and as the 32-limb remainder of a division by the large divisor (more than 32 limbs).
+fn hi_limit(cx: &mut Cx, radix: u32) {
+    if radix.is_power_of_two() {
+        return;
+    }
+    let dl = digits_limb(radix);
+    let d = (radix as u64).pow(dl as u32);
+    let ls = d.leading_zeros();
+    let hi_max = (d - 1) >> ls;
+    let l_min = if ls == 0 { 0u64 } else { (((1u128 + ((d - 1) as u128 % (1u128 << ls))) << 64) >> ls).min(u64::MAX as u128) as u64 };
+    // large divisor as radix_large_divisor computes it
+    let mut large = vec![d];
+    while large.len() < 32 {
+        large = trim(vmul(&large, &[d]));
+    }
+    loop {
+        let q = trim(vmul(&large, &[radix as u64]));
+        if q.len() > 32 {
+            break;
+        }
+        large = q;
+    }
+    let mut done = 0;
+    for (hi, l) in [(hi_max, l_min), (hi_max, MAX), (hi_max, l_min.wrapping_sub(1)), (hi_max - 1, MAX), (hi_max + 1, l_min), (hi_max, l_min | cx.rng.next() >> 3)] {
+        let head = vec![l, hi];
+        for k in 1..=31usize {
+            // smallest k with head * d^k < 2^(64 (k + 1)), and the next one
+            let x0 = trim(vmul(&head, &vpow_u64(d, k)));
+            if x0.len() > k + 1 {
+                continue;
+            }
+            done += 1;
+            let r = if k > 1 { below(&mut cx.rng, &vpow_u64(d, k)) } else { vec![] };
+            let x = trim(vadd(&x0, &r));
+            if x.len() <= k + 1 {
+                fmt_boxed(cx, radix, k + 1, &x);
+            }
+            fmt_boxed(cx, radix, k + 1, &x0);
+            for j in [1usize, 31usize.saturating_sub(k + 1), 32usize.saturating_sub(k + 1), 39usize.saturating_sub(k + 1)] {
+                if j == 0 {
+                    continue;
+                }
+                let xs = vshl(&x0, 64 * j);
+                let nl = k + 1 + j;
+                if nl == 32 {
+                    fmt_fixed::<32>(cx, radix, &xs);
+                } else if nl == 40 {
+                    fmt_fixed::<40>(cx, radix, &xs);
+                } else {
+                    fmt_boxed(cx, radix, nl, &xs);
+                }
+                if nl == 31 {
+                    // remainder of the large-divisor phase (top limb of the 32-limb remainder buffer is zero)
+                    for q in [vec![1u64], vec![radix as u64 + 1, 5], vpow(radix, 3 * dl + 1)] {
+                        let z = trim(vadd(&vmul(&q, &large), &xs));
+                        fmt_boxed(cx, radix, z.len().max(33), &z);
+                    }
+                }
+            }
+            if done % 2 == 0 {
+                break;
+            }
+        }
+    }
+}
+
+fn vpow_u64(d: u64, k: usize) -> Vec<u64> {
+    let mut acc = vec![1u64];
+    for _ in 0..k {
+        acc = trim(vmul(&acc, &[d]));
+    }
+    acc
+}
+
 /// radix outside 2..=36: the documented panic
 fn bad_radix(cx: &mut Cx) {
     for radix in [0u32, 1, 37, 38, 64, 256, 1000] {
@@ -550,6 +628,9 @@ fn main() {
             fixed::<8>(&mut cx, radix, &mid);
             fixed::<16>(&mut cx, radix, &large);
             fixed::<40>(&mut cx, radix, &huge);
+        }
+        if cx.want("hilimit") {
+            hi_limit(&mut cx, radix);
         }
         if cx.want("boxed") {
             for nl in [1usize, 2, 3] {
